@@ -579,7 +579,8 @@ class CallMixin(ExecBase):
         if x.get("tup") is not None:
             return [("ok", p, sv_bool(Or([PrefixOf(s.to_string(p, e), s.to_string(p, recv)) for e in x.get("tup")])))]
         if not s.precise_strings:
-            return [("ok", p, sv_bool(fresh("startswith", BoolSort())))]
+            from .exec import str_startswith
+            return [("ok", p, sv_bool(str_startswith(recv.t, x.t)))]      # opaque but functional
         return [("ok", p, sv_bool(PrefixOf(s.to_string(p, x), s.to_string(p, recv))))]
 
     def m_join(s, p, recv, args, kwargs, node):
